@@ -126,6 +126,7 @@ def block_table(thorough):
           B("ZeroCrossing", {"sps": 3.6}, "nrz", 3000),
           B("ZeroCrossing", {"sps": 3.3333333}, "nrz", 3000),
           B("SymbolSync", {"sps": 3.6}, "nrz", 3000),
+          B("ZeroCrossingClock", {"sps": 4.0}, "nrz", 6000),
           B("RtlSdrDecode", {}, "bytes", 3001),
           B("RationalResampler<u8>", {"interp": 5, "deci": 1}, "bytes", 1300),
           B("RationalResampler<u8>", {"interp": 3, "deci": 2}, "ramp", 4000),
